@@ -135,11 +135,25 @@ def yield_tables(case, j, loc):
     return Y, u * E + lg, v * E + lx
 
 
-def mask_of(case, j):
+def mask_of(case, j, trial=0):
+    """event-selection mask of dataset j; trial > 0: another pseudo-data trial on the same event table (other
+    selected events / (source, event) pairs, see `trial_n_events`)"""
     d = case['ds'][j]
     if d.get('mask') is None:
-        return np.ones((case['K'], d['E']), dtype=bool)
-    return np.array(d['mask'], dtype=bool).reshape((case['K'], d['E']))
+        m = np.ones((case['K'], d['E']), dtype=bool)
+    else:
+        m = np.array(d['mask'], dtype=bool).reshape((case['K'], d['E']))
+    if trial:
+        ee, kk = np.meshgrid(np.arange(d['E']), np.arange(case['K']))
+        flip = ((ee * 7 + kk * 3 + trial) % 3) == 0
+        m = np.where(flip, ~m, m)
+        if not m.any() and any(d['y0']):
+            m[0, 0] = True
+    return m
+
+
+def trial_n_events(case, j, trial=0):
+    return case['ds'][j]['N'] + 3 * trial
 
 
 # --------------------------------------------------------------------------------------------------
@@ -186,8 +200,8 @@ class Built(object):
     pass
 
 
-def build(case):
-    """the whole real object graph for a case"""
+def build(case, trial=0):
+    """the whole real object graph for a case (initialised with pseudo-data trial `trial`)"""
     from skyllh.core.pdfratio import PDFRatioProduct, SourceWeightedPDFRatio
     B = Built()
     K, J = case['K'], len(case['ds'])
@@ -228,9 +242,9 @@ def build(case):
             return cB * np.exp(sB * (_loc(params, 1, K)[:, None] - DEFAULTS[1]))
 
         esm = None
-        if d.get('mask') is not None:
-            esm = fx.StubEventSelection(shg_mgr, mask_of(case, j))
-        tdm = fx.make_tdm(shg_mgr, pmm, fx.make_events(d['E']), n_events=d['N'], evt_sel_method=esm)
+        if d.get('mask') is not None or trial:
+            esm = fx.StubEventSelection(shg_mgr, mask_of(case, j, trial))
+        tdm = fx.make_tdm(shg_mgr, pmm, fx.make_events(d['E']), n_events=trial_n_events(case, j, trial), evt_sel_method=esm)
         a = fx.StubPDFRatio(cfg, RA, dR={'gamma': (lambda params, RA=RA, sA=sA: sA * RA(params))})
         b = fx.StubPDFRatio(cfg, RB, dR={'ecut': (lambda params, RB=RB, sB=sB: sB * RB(params))})
         prod = PDFRatioProduct(a, b, cfg=cfg)
@@ -242,6 +256,16 @@ def build(case):
     B.multi = fx.make_multi_llhratio(cfg, pmm, sdw, dswf, B.llhs)
     B.multi.initialize_for_new_trial()
     return B
+
+
+def start_trial(B, case, trial):
+    """a new pseudo-data trial on the *used* object graph B (what Analysis.initialize_trial does)"""
+    for j, tdm in enumerate(B.tdms):
+        d = case['ds'][j]
+        esm = fx.StubEventSelection(B.shg_mgr, mask_of(case, j, trial))
+        tdm.initialize_trial(shg_mgr=B.shg_mgr, pmm=B.pmm, events=fx.make_events(d['E']),
+                             n_events=trial_n_events(case, j, trial), evt_sel_method=esm)
+    B.multi.initialize_for_new_trial()
 
 
 def evaluate(B, theta):
@@ -300,7 +324,12 @@ def grid_bkg():
     return 1.5 - 1.0 * GRID_EDGES
 
 
-def build_grid(case):
+def _grid_x(case, trial):
+    x = np.array(case['x'], dtype=np.float64)
+    return x if not trial else np.mod(x * 0.37 + 0.21 * trial, 0.96) + 0.02
+
+
+def build_grid(case, trial=0):
     from scipy.interpolate import RegularGridInterpolator
     from skyllh.core.backgroundpdf import BackgroundMultiDimGridPDF
     from skyllh.core.binning import BinningDefinition
@@ -317,16 +346,18 @@ def build_grid(case):
     pmm = make_pmm_layout(sources, case['layout'])
     B.cfg, B.sources, B.shg_mgr, B.pmm = cfg, sources, shg_mgr, pmm
     axes = [BinningDefinition('x', GRID_EDGES)]
-    grid = ParameterGrid('gamma', GRID_VALUES, delta=GRID_DELTA, decimals=1)
+    # 'edge_grid': the grid spans exactly the parameter range [VMIN, VMAX]: the bounds are the outermost grid points
+    gvals = np.around(VMIN + GRID_DELTA * np.arange(11), 1) if case.get('edge_grid') else GRID_VALUES
+    grid = ParameterGrid('gamma', gvals, delta=GRID_DELTA, decimals=1)
     pdfs = []
-    for g in GRID_VALUES:
+    for g in gvals:
         pdf = SignalMultiDimGridPDF(pmm=pmm, axis_binnings=axes, pdf_grid_data=grid_sig(g), cfg=cfg)
         pdf._pdf = RegularGridInterpolator((GRID_EDGES,), grid_sig(g), method='linear', bounds_error=False, fill_value=0)
         pdfs.append(({'gamma': float(g)}, pdf))
     icls = Linear1DGridManifoldInterpolationMethod if case['interp'] == 'linear' \
         else Parabola1DGridManifoldInterpolationMethod
     sigset = SignalMultiDimGridPDFSet(
-        pmm=pmm, param_set=ParameterSet([Parameter('gamma', 1.5, float(GRID_VALUES[0]), float(GRID_VALUES[-1]))]),
+        pmm=pmm, param_set=ParameterSet([Parameter('gamma', 1.5, float(gvals[0]), float(gvals[-1]))]),
         param_grid_set=grid, gridparams_pdfs=pdfs, interpol_method_cls=icls, cfg=cfg)
     bkg = BackgroundMultiDimGridPDF(pmm=pmm, axis_binnings=axes, pdf_grid_data=grid_bkg(), cfg=cfg)
     bkg._pdf = RegularGridInterpolator((GRID_EDGES,), grid_bkg(), method='linear', bounds_error=False, fill_value=0)
@@ -334,13 +365,19 @@ def build_grid(case):
     Y = np.array([case['y']], dtype=np.float64)
     (dsy, sdw, dswf) = fx.make_weight_services(shg_mgr, Y)
     outer = SourceWeightedPDFRatio(dataset_idx=0, src_detsigyield_weights_service=sdw, pdfratio=inner, cfg=cfg)
-    x = np.array(case['x'], dtype=np.float64)
-    tdm = fx.make_tdm(shg_mgr, pmm, fx.make_events(len(x), x=x), n_events=case['N'])
+    x = _grid_x(case, trial)
+    tdm = fx.make_tdm(shg_mgr, pmm, fx.make_events(len(x), x=x), n_events=case['N'] + 3 * trial)
     single = fx.make_single_llhratio(cfg, pmm, shg_mgr, tdm, outer)
     B.multi = fx.make_multi_llhratio(cfg, pmm, sdw, dswf, [single])
     B.multi.initialize_for_new_trial()
     B.tdm, B.inner, B.outer = tdm, inner, outer
     return B
+
+
+def start_trial_grid(B, case, trial):
+    x = _grid_x(case, trial)
+    B.tdm.initialize_trial(shg_mgr=B.shg_mgr, pmm=B.pmm, events=fx.make_events(len(x), x=x), n_events=case['N'] + 3 * trial)
+    B.multi.initialize_for_new_trial()
 
 
 # --------------------------------------------------------------------------------------------------
@@ -401,7 +438,15 @@ def _i3_energy_inputs_build(cfg):
     return sigset, bkg
 
 
-def build_i3(case):
+def _i3_events(case, j, trial):
+    rng = np.random.RandomState(case['ev_seed'] + 17 * j + 1000 * trial)
+    E = case['E'][j]
+    sin_dec = rng.uniform(-0.9, 0.9, E)
+    ev = fx.make_events(E, log_energy=rng.uniform(1.2, 6.8, E), sin_dec=sin_dec, dec=np.arcsin(sin_dec))
+    return rng, ev
+
+
+def build_i3(case, trial=0):
     import scipy.interpolate
     from skyllh.core.binning import BinningDefinition
     from skyllh.core.dataset import Dataset
@@ -440,18 +485,23 @@ def build_i3(case):
     for j in range(J):
         (sigset, bkg) = _i3_energy_inputs(cfg)
         energy = SplinedI3EnergySigSetOverBkgPDFRatio(cfg=cfg, sig_pdf_set=sigset, bkg_pdf=bkg, interpolmethod_cls=icls, ncpu=1)
-        rng = np.random.RandomState(case['ev_seed'] + 17 * j)
         E = case['E'][j]
-        sin_dec = rng.uniform(-0.9, 0.9, E)
-        ev = fx.make_events(E, log_energy=rng.uniform(1.2, 6.8, E), sin_dec=sin_dec, dec=np.arcsin(sin_dec))
-        spatial = fx.StubPDFRatio(cfg, np.exp(rng.uniform(-1.5, 2.5, size=(K, E))))
+        (_rng, ev) = _i3_events(case, j, trial)
+        spatial = fx.StubPDFRatio(cfg, np.exp(np.random.RandomState(case['ev_seed'] + 5 * j).uniform(-1.5, 2.5, size=(K, E))))
         prod = PDFRatioProduct(energy, spatial, cfg=cfg) if case.get('order', 'first') == 'first' \
             else PDFRatioProduct(spatial, energy, cfg=cfg)
         outer = SourceWeightedPDFRatio(dataset_idx=j, src_detsigyield_weights_service=sdw, pdfratio=prod, cfg=cfg)
-        tdm = fx.make_tdm(shg_mgr, pmm, ev, n_events=case['N'][j])
+        tdm = fx.make_tdm(shg_mgr, pmm, ev, n_events=case['N'][j] + 3 * trial)
         B.energy.append(energy)
         B.tdms.append(tdm)
         B.llhs.append(fx.make_single_llhratio(cfg, pmm, shg_mgr, tdm, outer))
     B.multi = fx.make_multi_llhratio(cfg, pmm, sdw, dswf, B.llhs)
     B.multi.initialize_for_new_trial()
     return B
+
+
+def start_trial_i3(B, case, trial):
+    for j, tdm in enumerate(B.tdms):
+        (_rng, ev) = _i3_events(case, j, trial)
+        tdm.initialize_trial(shg_mgr=B.shg_mgr, pmm=B.pmm, events=ev, n_events=case['N'][j] + 3 * trial)
+    B.multi.initialize_for_new_trial()
